@@ -182,7 +182,7 @@ func (m *pairModel) classify() {
 				m.inits = append(m.inits, removeSite{"file", fn, in, "init"})
 				return
 			}
-			if fn == readIndex {
+			if fn == readIndex || readIndex != nil && m.onLoadPath(fn, readIndex) {
 				m.loads = append(m.loads, removeSite{"file", fn, in, "load"})
 				return
 			}
@@ -210,6 +210,15 @@ func (m *pairModel) classify() {
 			m.unknown = append(m.unknown, removeSite{"file", fn, in, "store"})
 		})
 	}
+}
+
+// onLoadPath: fn is a helper that only ever runs as part of readIndex.
+func (m *pairModel) onLoadPath(fn, readIndex *ssa.Function) bool {
+	if fn == readIndex {
+		return true
+	}
+	ok, _ := m.c.P.OnlyReachedFrom(fn, func(g *ssa.Function) bool { return g == readIndex })
+	return ok
 }
 
 // isMsgContainer: v is (a snapshot of) one of the message containers.
